@@ -249,6 +249,8 @@ impl StreamsState {
         self.data_sent = 0;
         // None of the early data will ever be acknowledged
         self.unacked_data = 0;
+        // Connection-level credit restarts from the newly negotiated `initial_max_data`
+        self.max_data = 0;
         self.connection_blocked.clear();
     }
 
